@@ -1,5 +1,6 @@
 import HdVerif.Model.TilingChannels
 import HdVerif.Proofs.TilingCut
+import HdVerif.Proofs.TilingStd
 import HdVerif.Proofs.TilingFull
 /-! C04: lemmas about the temporary channel table (state machine over histories of reads) and the channel axis of
 segment-aware region reads. -/
@@ -465,6 +466,75 @@ theorem tiledSegTable_full_eq_sparse {α} [BEq α] (z : α) (Ms : List (Int × I
         have : Ms.map (fun m => some m.1) = (Ms.map Prod.fst).map some := by rw [List.map_map]; rfl
         rw [this, tiledFullLut_eq _ tr tc R C hr hc hR hC, hrows]
       rw [hfull]
+
+
+/-! ## `get_volume` on a tiled image: normalising twice -/
+
+/-- 0-based results of the normalisation, read again as indices, denote the same region as the original request -/
+theorem stdRowCol_renormalise (rs re cs ce : Option Int) (R C : Int) (ai : Bool) (a b c d : Int)
+    (h : stdRowColIndices rs re cs ce R C ai true = .ok (a, b, c, d)) :
+    stdRowColIndices (some a) (some b) (some c) (some d) R C true false = .ok (a + 1, b + 1, c + 1, d + 1) ∧
+    stdRowColIndices rs re cs ce R C ai false = .ok (a + 1, b + 1, c + 1, d + 1) := by
+  obtain ⟨g1, g2, g3, g4, g5, g6, g7, g8⟩ := stdRowCol_range_idx h
+  obtain ⟨h1, h2, h3, h4⟩ := (stdRowCol_ok_iff rs re cs ce R C ai true a b c d).mp h
+  have e1 : outShift true = 1 := rfl
+  have e0 : outShift false = 0 := rfl
+  rw [e1] at h1 h2 h3 h4
+  constructor
+  · rw [stdRowCol_ok_iff, e0]
+    refine ⟨?_, ?_, ?_, ?_⟩
+    · unfold normStart; simp only; grind
+    · unfold normEnd; simp only; grind
+    · unfold normStart; simp only; grind
+    · unfold normEnd; simp only; grind
+  · rw [stdRowCol_ok_iff, e0]
+    simp only [Int.add_zero]
+    exact ⟨h1, h2, h3, h4⟩
+
+/-- a request refused by the 0-based normalisation is refused by the 1-based one as well -/
+theorem stdRowCol_error_both (rs re cs ce : Option Int) (R C : Int) (ai : Bool) (e : ErrKind)
+    (h : stdRowColIndices rs re cs ce R C ai true = .error e) : ∃ e', stdRowColIndices rs re cs ce R C ai false = .error e' := by
+  cases h' : stdRowColIndices rs re cs ce R C ai false with
+  | error e' => exact ⟨e', rfl⟩
+  | ok v =>
+    exfalso
+    obtain ⟨a, b, c, d⟩ := v
+    have := (stdRowCol_ok_iff rs re cs ce R C ai false a b c d).mp h'
+    have e0 : outShift false = 0 := rfl
+    rw [e0] at this
+    have hok : stdRowColIndices rs re cs ce R C ai true = .ok (a - 1, b - 1, c - 1, d - 1) := by
+      rw [stdRowCol_ok_iff]
+      have e1 : outShift true = 1 := rfl
+      rw [e1]
+      simp only [Int.add_zero, Int.sub_add_cancel] at this ⊢
+      exact this
+    rw [hok] at h
+    cases h
+
+/-- **`get_volume` reads the region `get_total_pixel_matrix` reads.** -/
+theorem readVolumeRegion_eq {α} (z : α) (lut : List LutRow) (frames : List (Img α)) (R C th tw : Int)
+    (chan : Option Int) (rs re cs ce : Option Int) (ai full am : Bool) :
+    (∀ a b c d, stdRowColIndices rs re cs ce R C ai true = .ok (a, b, c, d) →
+      readVolumeRegion z lut frames R C th tw chan rs re cs ce ai full am = readRegion z lut frames R C th tw chan rs re cs ce ai full am) ∧
+    (∀ e, stdRowColIndices rs re cs ce R C ai true = .error e →
+      readVolumeRegion z lut frames R C th tw chan rs re cs ce ai full am = .error e ∧
+      ∃ e', readRegion z lut frames R C th tw chan rs re cs ce ai full am = .error e') := by
+  constructor
+  · intro a b c d h
+    obtain ⟨r1, r2⟩ := stdRowCol_renormalise rs re cs ce R C ai a b c d h
+    unfold readVolumeRegion
+    simp only [volumeStdCall, volumeTpmCall, h]
+    unfold readRegion
+    rw [r1, r2]
+  · intro e h
+    constructor
+    · unfold readVolumeRegion
+      simp only [volumeStdCall, h]
+    · obtain ⟨e', he'⟩ := stdRowCol_error_both rs re cs ce R C ai e h
+      unfold readRegion
+      split
+      · exact ⟨_, rfl⟩
+      · rw [he']; exact ⟨_, rfl⟩
 
 
 end HdVerif.TilingLemmas
